@@ -4,6 +4,7 @@ include!("../../generated/generated_sbix.rs");
 
 impl Sbix {
     fn compile_header_flags(&self) -> u16 {
-        self.flags.bits() & 1
+        // Bit 0 must always be set
+        self.flags.bits() | HeaderFlags::ALWAYS_SET.bits()
     }
 }
